@@ -13,6 +13,7 @@ mod drive;
 mod proj;
 mod replay;
 mod shapes;
+mod strser;
 
 use std::io::{BufRead, BufReader};
 use std::sync::atomic::{AtomicU64, Ordering};
